@@ -195,8 +195,10 @@ func (a *kAggregate) aggregate(t int64, result *[]model.StepVector, k int, Sampl
 		}
 	}
 
+	// All groups of one step go into the same step vector: consumers pair
+	// the vectors of a batch with evaluation steps by position.
+	s := a.vectorPool.GetStepVector(t)
 	for _, h := range a.heaps {
-		s := a.vectorPool.GetStepVector(t)
 		// The heap keeps the lowest value on top, so reverse it.
 		if len(h.entries) > 1 {
 			sort.Sort(sort.Reverse(h))
@@ -206,9 +208,9 @@ func (a *kAggregate) aggregate(t int64, result *[]model.StepVector, k int, Sampl
 			s.SampleIDs = append(s.SampleIDs, e.sId)
 			s.Samples = append(s.Samples, e.total)
 		}
-		*result = append(*result, s)
 		h.entries = h.entries[:0]
 	}
+	*result = append(*result, s)
 }
 
 // convertibleToInt64 returns true if v does not over-/underflow an int64.
